@@ -6,10 +6,11 @@ import vlib
 sys.path.insert(0, os.path.join(vlib.VERIF, 'tools', 'translate'))
 from corr import certlib
 
-LEAN_TARGETS = ['CvxVerif.Props.C01', 'CvxVerif.Props.C01Check', 'CvxVerif.Props.C01Start']
-MODEL_FILES = ['CvxVerif.Model.LinAlgMachine', 'CvxVerif.Model.CertCheck', 'CvxVerif.Proofs.CertCheck', 'CvxVerif.Gen.Decide', 'CvxVerif.Gen.DecideStart']
+LEAN_TARGETS = ['CvxVerif.Props.C01', 'CvxVerif.Props.C01Check', 'CvxVerif.Props.C01Start', 'CvxVerif.Props.C01Shift']
+MODEL_FILES = ['CvxVerif.Model.LinAlgMachine', 'CvxVerif.Model.CertCheck', 'CvxVerif.Proofs.CertCheck', 'CvxVerif.Gen.Decide', 'CvxVerif.Gen.DecideStart', 'CvxVerif.Gen.Exits']
 LEVEL = 'proof'
-TRUSTED = ['translator py2lean.gen_decide (statistics block, stopping test, return dictionaries, rescalings of conelp/coneqp) and the '
+TRUSTED = ['translator tools/translate/py2lean_exits.py (the blocks that move a starting point into the cone -> Gen/Exits.lean, shifts / amount)',
+           'translator py2lean.gen_decide (statistics block, stopping test, return dictionaries, rescalings of conelp/coneqp) and the '
            'fixed semantics Model/LinAlgMachine.lean of its target statements',
            'rational checker Model/CertCheck.lean (cone membership parts proved sound in Proofs/CertCheck.lean) run on the exact '
            'values of the returned doubles; rounding allowance feastol*(1+1e-6)+1e-13']
@@ -25,6 +26,9 @@ def translate(ctx):
     try:
         import py2lean_start; py2lean_start.gen_decide_start()
     except Exception as e: probs.append('py2lean_start.gen_decide_start: %s: %s' % (type(e).__name__, e))
+    try:
+        import py2lean_exits; py2lean_exits.gen_exits()
+    except Exception as e: probs.append('py2lean_exits.gen_exits: %s: %s' % (type(e).__name__, e))
     return probs
 
 def correspond(ctx):
@@ -33,7 +37,7 @@ def correspond(ctx):
     stats, tags, judged, lines = certlib.cone_runs(ctx, cvxopt, ['optimal', 'optimal', 'optimal', 'pinf', 'dinf'], n, 4 if ctx.quick() else 6, 'c01', rankdef=12 if ctx.quick() else 60)
     ctx.cov.update({'evaluations': stats['solves'], 'distinct_nontrivial': judged,
                     'rule': 'rank-deficient epigraph LPs (collinear columns; any status returned is judged) and planted cone LPs (random dims l/q/s incl. empty and order-0/1 blocks, p in 0..2; 60% strictly feasible pairs, 20% Farkas, '
-                            '20% rays) x presentations (kktsolver names, callable KKT solver, sparse, junk upper triangles, start points, random '
+                            '20% rays) x presentations (kktsolver names, callable KKT solver, sparse, junk upper triangles, start points (both, primal only, dual only), random '
                             'tolerance/refinement options, lp/socp/sdp wrappers, glpk); non-trivial = results judged by the Lean checker',
                     'statuses': stats, 'presentations': tags})
     ctx.samples += lines[:2]
